@@ -59,7 +59,10 @@ EddsaSign(i) == [R |-> (i.n * B) % G, S |-> (i.n + i.c * i.a) % L, A |-> (i.a * 
 \* gnark-crypto also demands a canonical non-zero S (malleability)
 EddsaVerify(v) == /\ v.S >= 1 /\ v.S <= L - 1
                   /\ (H * (v.S * B + G * G - v.R - v.c * v.A)) % G = 0
-EddsaClasses == {"genuine", "sInc", "sPlusL", "sZero", "rOther", "mInc", "otherKey"}
+EddsaClasses == {"genuine", "sInc", "sPlusL", "sZero", "rOther", "mInc", "otherKey", "rLowOrder"}
+\* the signer (who knows the key) adds a point of low order to R - L has order H in Z_{H*L} - and signs for the new hash:
+\* the cofactored equation, which is what both verifiers implement, does not see the low-order component
+EddsaLowOrder(i, c2) == [R |-> (i.n * B + L) % G, S |-> (i.n + c2 * i.a) % L, A |-> (i.a * B) % G, c |-> c2]
 \* an edit of R, A or the message changes the hash: c2 is the new (arbitrary) value
 EddsaEdit(c, v, c2) ==
   CASE c = "genuine"  -> v
@@ -69,17 +72,21 @@ EddsaEdit(c, v, c2) ==
     [] c = "rOther"   -> [v EXCEPT !.R = (v.R + B) % G, !.c = c2]
     [] c = "mInc"     -> [v EXCEPT !.c = c2]
     [] c = "otherKey" -> [v EXCEPT !.A = (v.A + B) % G, !.c = c2]
+    [] c = "rLowOrder" -> v
 EddsaTrials(c) == IF c \in {"rOther", "mInc", "otherKey"} THEN {<<i, c2>> : i \in {j \in EddsaInst : j.n + j.c * j.a # 0 /\ (j.n + j.c * j.a) % L # 0}, c2 \in 0..L-1}
                   ELSE {<<i, i.c>> : i \in {j \in EddsaInst : (j.n + j.c * j.a) % L # 0}}
-EddsaAccepts(c) == Cardinality({t \in EddsaTrials(c) : EddsaVerify(EddsaEdit(c, EddsaSign(t[1]), t[2]))})
+EddsaLowTrials == {t \in EddsaInst \X (0..L-1) : (t[1].n + t[2] * t[1].a) % L # 0}
+EddsaAccepts(c) == IF c = "rLowOrder" THEN Cardinality({t \in EddsaLowTrials : EddsaVerify(EddsaLowOrder(t[1], t[2]))})
+                   ELSE Cardinality({t \in EddsaTrials(c) : EddsaVerify(EddsaEdit(c, EddsaSign(t[1]), t[2]))})
+EddsaTotal(c) == IF c = "rLowOrder" THEN Cardinality(EddsaLowTrials) ELSE Cardinality(EddsaTrials(c))
 
 -----------------------------------------------------------------------------
 Verdict(acc, total) == IF acc = total THEN "accept" ELSE IF acc = 0 THEN "reject" ELSE "coincidence"
 
 EcdsaTable == [c \in EcdsaClasses |-> [scheme |-> "ecdsa", class |-> c, accepts |-> EcdsaAccepts(c), total |-> Cardinality(EcdsaInst),
                                         verdict |-> Verdict(EcdsaAccepts(c), Cardinality(EcdsaInst))]]
-EddsaTable == [c \in EddsaClasses |-> [scheme |-> "eddsa", class |-> c, accepts |-> EddsaAccepts(c), total |-> Cardinality(EddsaTrials(c)),
-                                        verdict |-> Verdict(EddsaAccepts(c), Cardinality(EddsaTrials(c)))]]
+EddsaTable == [c \in EddsaClasses |-> [scheme |-> "eddsa", class |-> c, accepts |-> EddsaAccepts(c), total |-> EddsaTotal(c),
+                                        verdict |-> Verdict(EddsaAccepts(c), EddsaTotal(c))]]
 
 \* what the real verifiers are held to: a coincidence of the toy group is a rejection on a cryptographic group
 Expect(row) == IF row.verdict = "accept" THEN "accept" ELSE "reject"
@@ -89,6 +96,7 @@ ASSUME \A c \in {"genuine", "sNeg", "mPlusN"} : EcdsaTable[c].verdict = "accept"
 ASSUME \A c \in {"rZero", "sZero", "rPlusN", "sPlusN"} : EcdsaTable[c].verdict = "reject"
 ASSUME \A c \in {"rInc", "sInc", "mInc", "otherKey", "swapRS"} : EcdsaTable[c].verdict # "accept" /\ 2 * EcdsaTable[c].accepts < EcdsaTable[c].total
 ASSUME EddsaTable["genuine"].verdict = "accept"
+ASSUME EddsaTable["rLowOrder"].verdict = "accept"          \* cofactored verification
 ASSUME \A c \in {"sInc", "sPlusL", "sZero"} : EddsaTable[c].verdict = "reject"
 ASSUME \A c \in {"rOther", "mInc", "otherKey"} : EddsaTable[c].verdict # "accept" /\ 2 * EddsaTable[c].accepts < EddsaTable[c].total
 \* without the canonical-S rule the non-canonical S + L satisfies the equation for every instance (why the rule exists)
